@@ -135,7 +135,19 @@ class Sym:
             if k in ("BinaryOperator", "CompoundAssignOperator") and x.get("opcode", "").endswith("=") and \
                     x.get("opcode") not in ("==", "!=", "<=", ">=") and self.lvalue(kids(x)[0]):
                 return True
+            if k == "CallExpr" and self.callee(x) == "platform_atomic_store_int" and self.store_target(x):
+                return True
         return False
+
+    def store_target(self, call):
+        """platform_atomic_store_int(&v, val) with v tracked -> v"""
+        args = kids(call)
+        if len(args) != 3:
+            return None
+        a = strip(args[1])
+        if a.get("kind") == "UnaryOperator" and a.get("opcode") == "&":
+            return self.lvalue(kids(a)[0])
+        return None
 
     def mentions_tracked(self, n):
         return any(x.get("kind") in ("DeclRefExpr", "MemberExpr") and self.lvalue(x) for x in walk(n))
@@ -195,6 +207,8 @@ class Sym:
             return ("int", str(v) if v >= 0 else "(%d)" % v)
         if k == "ImplicitCastExpr" and n.get("castKind") in ("LValueToRValue", "NoOp"):
             return self.expr(kids(n)[0])
+        if k in ("ImplicitCastExpr", "CStyleCastExpr") and n.get("castKind") == "NullToPointer":
+            return self.expr(kids(n)[0])
         if k in ("ImplicitCastExpr", "CStyleCastExpr") and n.get("castKind") in ("IntegralCast", "NoOp"):
             inner = kids(n)[0]
             r = self.expr(inner)
@@ -241,6 +255,16 @@ class Sym:
                     raise OutOfGrammar("side effect in the right operand of " + op)
                 return ("prop", "(%s %s %s)" % (ra, "∧" if op == "&&" else "∨", rb))
             ra = self.as_int(self.expr(a))
+            if op == "&":
+                lit = strip(b)
+                while lit.get("kind") in ("ImplicitCastExpr", "CStyleCastExpr"):
+                    lit = strip(kids(lit)[0])
+                if lit.get("kind") == "IntegerLiteral":
+                    c = int(lit["value"])
+                    if c > 0 and c & (c - 1) == 0:
+                        # x & 2^k on two's complement = bit k of x (Lean Int `/` and `%` round towards -inf for c > 0)
+                        return ("int", "(((%s / %d) %% 2) * %d)" % (ra, c, c))
+                raise OutOfGrammar("& with an operand that is not a power-of-two literal")
             rb = self.as_int(self.expr(b))
             if op in ("+", "-", "*"):
                 return ("int", "(%s %s %s)" % (ra, op, rb))
@@ -316,6 +340,9 @@ class Sym:
             return
         if k == "BreakStmt":
             self.brk = "True"
+            return
+        if k == "CallExpr" and self.callee(n) == "platform_atomic_store_int" and self.store_target(n):
+            self.assign(self.store_target(n), self.as_int(self.expr(kids(n)[2])))
             return
         if k == "CallExpr" and self.call_marker and self.callee(n) == self.call_marker:
             if self.called != "false":
@@ -473,6 +500,226 @@ def extract(bdir):
     out.append("/-- src/backend.c call_heart_beat, last statement of the loop body: (new heart_beat_index, leave the loop) -/\n"
                "def loopStep (heart_beat_index num_hb_to_do : Int) : Int × Bool :=\n  (%s,\n   decide %s)\n"
                % (sy.state["heart_beat_index"], sy.brk))
+    # ---------------- call_heart_beat: the frame of a round (entry, exit, no round at all) ---------------------------
+    ctop = kids(body_of(chb))
+    ifpos = [i for i, st in enumerate(ctop) if st.get("kind") == "IfStmt" and any(x is loops[0] for x in walk(st))]
+    if len(ifpos) != 1 or len(kids(ctop[ifpos[0]])) != 2 or kids(ctop[ifpos[0]])[1].get("kind") != "CompoundStmt":
+        raise TieBroken("call_heart_beat:frame", "the while loop of call_heart_beat is not inside exactly one top-level if without else")
+    fi = ifpos[0]
+    fcond, fthen = kids(ctop[fi])
+    tk = kids(fthen)
+    wpos = [i for i, st in enumerate(tk) if st is loops[0]]
+    if len(wpos) != 1:
+        raise TieBroken("call_heart_beat:frame", "the while loop is not a direct statement of the guarded block")
+    frame_vars = ["num_hb_objs", "heart_beat_index", "num_hb_to_do", "heart_beat_flag", "current_heart_beat"]
+
+    def frame_sym(site):
+        sy = Sym(site, frame_vars, {"timer_flags": "timer_flags"}, frame_vars + ["timer_flags"])
+        return sy
+    sy = frame_sym("call_heart_beat:round-entry")
+    sy.run(ctop[:fi])
+    try:
+        gcond = sy.as_prop(sy.expr(fcond))
+    except OutOfGrammar as e:
+        raise TieBroken("call_heart_beat:round-entry", "the guard of the round left the grammar: %s" % e)
+    st0 = dict(sy.state)
+    sy.run(tk[:wpos[0]])
+    st1 = dict(sy.state)
+    if sy.brk != "False" or st0["num_hb_objs"] != "num_hb_objs" or st1["num_hb_objs"] != "num_hb_objs" \
+            or st1["current_heart_beat"] != "current_heart_beat" or st1["timer_flags"] != "timer_flags":
+        raise TieBroken("call_heart_beat:round-entry", "the entry of the round writes num_hb_objs / current_heart_beat / timer_flags")
+    ent = sy.merge(gcond, st1, st0)
+    info["roundEntry"] = [ent["heart_beat_index"], ent["num_hb_to_do"], ent["heart_beat_flag"], gcond]
+    out.append("/-- src/backend.c call_heart_beat up to the while loop: (heart_beat_index, num_hb_to_do, heart_beat_flag, whether the\n"
+               "    round is entered) -/\n"
+               "def roundEntry (num_hb_objs heart_beat_index num_hb_to_do heart_beat_flag timer_flags : Int) : Int × Int × Int × Bool :=\n"
+               "  (%s,\n   %s,\n   %s,\n   decide %s)\n" % (ent["heart_beat_index"], ent["num_hb_to_do"], ent["heart_beat_flag"], gcond))
+    for name, stmts, doc in (("roundExit", tk[wpos[0] + 1:] + ctop[fi + 1:], "after the while loop"),
+                             ("roundSkip", ctop[fi + 1:], "when the round is not entered")):
+        sy = frame_sym("call_heart_beat:" + name)
+        sy.run(stmts)
+        if sy.brk != "False" or sy.state["num_hb_objs"] != "num_hb_objs" or sy.state["heart_beat_flag"] != "heart_beat_flag":
+            raise TieBroken("call_heart_beat:" + name, "the end of call_heart_beat writes num_hb_objs / heart_beat_flag")
+        info[name] = [sy.state["heart_beat_index"], sy.state["num_hb_to_do"], sy.state["current_heart_beat"]]
+        out.append("/-- src/backend.c call_heart_beat %s: (heart_beat_index, num_hb_to_do, current_heart_beat; 0 = NULL) -/\n"
+                   "def %s (heart_beat_index num_hb_to_do current_heart_beat : Int) : Int × Int × Int :=\n  (%s,\n   %s,\n   %s)\n"
+                   % (doc, name, sy.state["heart_beat_index"], sy.state["num_hb_to_do"], sy.state["current_heart_beat"]))
+
+    # ---------------- call_heart_beat: the statements around the call of heart_beat() --------------------------------
+    import re as _re0
+    flagdefs = open(os.path.join(E.REPO, "lib/lpc/object.h")).read()
+    m0 = _re0.search(r"#define\s+O_ENABLE_COMMANDS\s+(0x[0-9a-fA-F]+|\d+)", flagdefs)
+    if not m0:
+        raise TieBroken("call_heart_beat:call-frame", "O_ENABLE_COMMANDS not found in lib/lpc/object.h")
+    o_enable = int(m0.group(1), 0)
+
+    def find_block(n):
+        """the compound statement that directly holds the call_function statement"""
+        if n.get("kind") == "CompoundStmt":
+            for c in kids(n):
+                if c.get("kind") == "CallExpr" and Sym.callee(c) == "call_function":
+                    return n
+        for c in kids(n):
+            r = find_block(c)
+            if r is not None:
+                return r
+        return None
+    blk = find_block(wbody)
+    if blk is None:
+        raise TieBroken("call_heart_beat:call-frame", "call_function is not a direct statement of a block of the loop body")
+
+    def dref(n):
+        n = strip(n)
+        while n.get("kind") == "ImplicitCastExpr":
+            n = strip(kids(n)[0])
+        return n.get("referencedDecl", {}).get("name") if n.get("kind") == "DeclRefExpr" else None
+
+    def is_zero(n):
+        n = strip(n)
+        while n.get("kind") in ("ImplicitCastExpr", "CStyleCastExpr"):
+            n = strip(kids(n)[0])
+        return n.get("kind") == "IntegerLiteral" and int(n["value"]) == 0
+
+    def assign_of(n):
+        """(lhs global name, rhs node) of a plain assignment statement, else None"""
+        if n.get("kind") == "BinaryOperator" and n.get("opcode") == "=":
+            a, b = kids(n)
+            if dref(a):
+                return dref(a), b
+        return None
+
+    def frame_code(st):
+        a = assign_of(st)
+        if a:
+            lhs, rhs = a
+            if lhs == "current_heart_beat" and dref(rhs) == "ob":
+                return 1
+            if lhs == "command_giver" and dref(rhs) == "ob":
+                return 2
+            if lhs == "eval_cost" and any(x.get("kind") == "DeclRefExpr" and x.get("referencedDecl", {}).get("name") == "config_int"
+                                          for x in walk(rhs)) and not any(dref(x) == "eval_cost" for x in walk(rhs)):
+                return 4
+            if lhs == "command_giver" and is_zero(rhs):
+                return 5
+            if lhs == "current_object" and is_zero(rhs):
+                return 6
+            return None
+        if st.get("kind") == "CallExpr" and Sym.callee(st) == "call_function":
+            return 0
+        if st.get("kind") == "IfStmt" and len(kids(st)) == 2:
+            c, body = kids(st)
+            c = strip(c)
+            if c.get("kind") == "UnaryOperator" and c.get("opcode") == "!":
+                t = strip(kids(c)[0])
+                if t.get("kind") == "BinaryOperator" and t.get("opcode") == "&":
+                    l, r = kids(t)
+                    l = strip(l)
+                    while l.get("kind") == "ImplicitCastExpr":
+                        l = strip(kids(l)[0])
+                    r = strip(r)
+                    while r.get("kind") in ("ImplicitCastExpr", "CStyleCastExpr"):
+                        r = strip(kids(r)[0])
+                    inner = [body] if body.get("kind") != "CompoundStmt" else kids(body)
+                    if l.get("kind") == "MemberExpr" and l.get("name") == "flags" and dref(kids(l)[0]) == "command_giver" \
+                            and r.get("kind") == "IntegerLiteral" and int(r["value"]) == o_enable and len(inner) == 1 \
+                            and assign_of(inner[0]) and assign_of(inner[0])[0] == "command_giver" and is_zero(assign_of(inner[0])[1]):
+                        return 3
+        return None
+
+    def harmless(st):
+        """no store to a global / through a pointer other than the countdown, no call except tracing"""
+        for x in walk(st):
+            k = x.get("kind")
+            if k == "CallExpr" and Sym.callee(x) not in ("debug_message", "debug_message_with_src", "platform_atomic_load_int"):
+                return False
+            if k in ("BinaryOperator", "CompoundAssignOperator") and x.get("opcode", "").endswith("=") and \
+                    x.get("opcode") not in ("==", "!=", "<=", ">="):
+                tgt = strip(kids(x)[0])
+                if not (tgt.get("kind") == "MemberExpr" and tgt.get("name") == "heart_beat_ticks"):
+                    return False
+            if k == "UnaryOperator" and x.get("opcode") in ("++", "--"):
+                return False
+            if k in ("ReturnStmt", "BreakStmt", "ContinueStmt", "GotoStmt"):
+                return False
+        return True
+    frame = []
+    for st in kids(blk):
+        c = frame_code(st)
+        if c is not None:
+            frame.append(c)
+        elif not harmless(st):
+            raise TieBroken("call_heart_beat:call-frame", "a statement next to the heart_beat call is not one the translator knows "
+                            "(line %s)" % st.get("range", {}).get("begin", {}).get("line", "?"))
+    if frame.count(0) != 1:
+        raise TieBroken("call_heart_beat:call-frame", "expected exactly one call_function in the block")
+    info["callFrame"] = frame
+    out.append("/-- src/backend.c call_heart_beat, statements around the call in source order: 1 = `current_heart_beat = ob`,\n"
+               "    2 = `command_giver = ob`, 3 = `if (!(command_giver->flags & O_ENABLE_COMMANDS)) command_giver = 0`,\n"
+               "    4 = `eval_cost = CONFIG_INT (__MAX_EVAL_COST__)`, 0 = the call of heart_beat(), 5 = `command_giver = 0`,\n"
+               "    6 = `current_object = 0` -/\n"
+               "def callFrame : List Nat := %s\n" % str(frame))
+
+    # ---------------- error_handler: catch branch first, then the heart-beat switch-off, then the longjmp -------------
+    eh = ast_function(bdir, "src/error_context.c", "error_handler")
+    etop = kids(body_of(eh))
+
+    def has_call(n, name):
+        return any(x.get("kind") == "CallExpr" and Sym.callee(x) == name for x in walk(n))
+
+    def is_catch_if(st):
+        # the FRAME_CATCH test: an if whose condition reads `framekind` and whose body longjmps
+        return st.get("kind") == "IfStmt" and any(x.get("kind") == "MemberExpr" and x.get("name") == "framekind"
+                                                    for x in walk(kids(st)[0])) and has_call(kids(st)[1], "longjmp")
+
+    def is_hb_if(st):
+        return st.get("kind") == "IfStmt" and len(kids(st)) == 2 and dref(kids(st)[0]) == "current_heart_beat"
+    ewhere = {0: [], 1: [], 2: []}
+    for i, st in enumerate(etop):
+        if is_catch_if(st):
+            ewhere[0].append(i)
+        elif is_hb_if(st):
+            ewhere[1].append(i)
+        elif st.get("kind") == "IfStmt" and dref(kids(st)[0]) == "current_error_context" and has_call(kids(st)[1], "longjmp") \
+                and i > 0 and ewhere[1]:
+            ewhere[2].append(i)
+    n_hb_calls = sum(1 for x in walk(eh) if x.get("kind") == "CallExpr" and Sym.callee(x) == "set_heart_beat")
+    n_cur_writes = sum(1 for x in walk(eh) if assign_of(x) and assign_of(x)[0] == "current_heart_beat")
+    if any(len(v) != 1 for v in ewhere.values()) or n_hb_calls != 1 or n_cur_writes != 1:
+        raise TieBroken("error_handler:order", "error_handler: expected one catch branch, one `if (current_heart_beat)` block and the "
+                        "final longjmp at top level, found %s (set_heart_beat calls: %d, current_heart_beat stores: %d)"
+                        % ({k: len(v) for k, v in ewhere.items()}, n_hb_calls, n_cur_writes))
+    # between the catch branch and the switch-off nothing may leave the function unless an error is already being handled
+    for st in etop[ewhere[0][0] + 1: ewhere[1][0]]:
+        if st.get("kind") == "IfStmt" and dref(kids(st)[0]) == "in_error":
+            continue
+        if any(x.get("kind") in ("ReturnStmt", "GotoStmt") for x in walk(st)) or has_call(st, "longjmp"):
+            raise TieBroken("error_handler:order", "error_handler can leave before the heart-beat switch-off")
+    eorder = [k for k, _ in sorted(ewhere.items(), key=lambda kv: kv[1][0])]
+    eblock = []
+    hb_body = kids(etop[ewhere[1][0]])[1]
+    for st in (kids(hb_body) if hb_body.get("kind") == "CompoundStmt" else [hb_body]):
+        if st.get("kind") == "CallExpr" and Sym.callee(st) == "set_heart_beat":
+            args = kids(st)
+            if dref(args[1]) != "current_heart_beat" or not is_zero(args[2]):
+                raise TieBroken("error_handler:block", "set_heart_beat in error_handler is not called with (current_heart_beat, 0)")
+            eblock.append(1)
+        elif assign_of(st) and assign_of(st)[0] == "current_heart_beat":
+            if not is_zero(assign_of(st)[1]):
+                raise TieBroken("error_handler:block", "current_heart_beat is not reset to 0")
+            eblock.append(2)
+        elif st.get("kind") == "CallExpr" and Sym.callee(st) in ("debug_message", "add_message"):
+            continue
+        else:
+            raise TieBroken("error_handler:block", "unknown statement in the `if (current_heart_beat)` block of error_handler")
+    info["errOrder"] = eorder
+    info["errBlock"] = eblock
+    out.append("/-- src/error_context.c error_handler, top-level order of 0 = the catch branch (FRAME_CATCH test, longjmp into do_catch),\n"
+               "    1 = the `if (current_heart_beat)` block, 2 = the final longjmp to the error context -/\n"
+               "def errOrder : List Nat := %s\n" % str(eorder))
+    out.append("/-- src/error_context.c error_handler, statements of the `if (current_heart_beat)` block in order:\n"
+               "    1 = `set_heart_beat (current_heart_beat, 0)`, 2 = `current_heart_beat = 0` -/\n"
+               "def errBlock : List Nat := %s\n" % str(eblock))
+
     # ---------------- fail closed: the cursor variables must not be written anywhere the slices above do not see -------
     import re as _re
     src_path = os.path.join(E.REPO, "src/backend.c")
